@@ -4,6 +4,26 @@ import json, os
 HERE = os.path.dirname(os.path.dirname(os.path.abspath(__file__)))
 
 CHECKS = {
+ "C03": dict(
+    technique="custom static rules over the clang-resolved program: slot/accessor role agreement at Arch call sites, index-kind checking of matrix kernels and merge loops (equalities only from the functions' own XASSERTs), CFG control-dependence rule for the no-silent-drop clause",
+    text="Decides for all operands, scalars and patterns: every Arch::{ScaleRows,ScaleCols,Lumping,Diagonal,RowNorm,Axpy,Scale,...} call site passes the like-named accessor of the right object, the vector operand is guarded against rows resp. columns according to the index kind the kernel uses, wrappers forward to the right generic kernel, the row kernels loop rows x [row_ptr[i],row_ptr[i+1]) with kind-correct subscripts and the documented per-entry term, every subscript in the five sorted-merge products is of the kind its array expects, and in the merge loops an entry of the product outside the output pattern can only be skipped on the true edge of allow_incomplete - every other way out reaches the abort (required-pattern violations are never silent).",
+    note="Trusted: clang front end, featx facts, accessor/kind tables in checks/c03.py and lib/lafem_roles.py. Not decided: numerical equality with dense formulas, dimension typing of scalars (E6), ProductMatMat of DenseMatrix, shrink, sortedness of input column indices (input contract).",
+    design="§4 C03"),
+ "C04": dict(
+    technique="sympy normal-form agreement of alias-specialised kernel branches with the general branch, loop/index-kind rules on the kernels, role and perspective agreement at call sites, MAP/FOLD recursion-scheme conformance of Tuple/PowerVector - all over clang facts",
+    text="Decides for all lengths, block sizes, compositions and aliasing patterns: each alias-specialised branch (r==x, x==y, x==z, y==z, ...) of the axpy/dot/triple-dot/component-product/invert/scale kernels equals the general branch under the aliasing condition and the general branch equals the documented element-wise formula (sympy); every kernel is one loop over [0,size) (times the block size) subscripting every operand by the loop variable; reductions start neutral and only accumulate; min/max index kernels compare and store the same candidate with the right seed; call sites pass receiver/operands/scalars in the right slots with extents in the same perspective as the arrays (size for dense, used_elements for sparse); meta vectors apply the same method to matching parts with the right combiner.",
+    note="Trusted: clang front end, featx facts, sympy, tables in checks/c04.py / lib/lafem_roles.py. Not decided: floating-point values, min/max of empty vectors, MKL/CUDA back ends.",
+    design="§4 C04"),
+ "C01": dict(
+    technique="custom static rules over the clang-resolved program: instantiability (front-end errors), argument-role agreement at Arch::Apply call sites by callee parameter names, CFG path rules on early-outs, const/alias discipline, block-recursion scheme conformance of meta matrices, index-kind check of the generic kernels",
+    text="Decides structural necessary conditions of the matvec property for every apply/apply_transposed overload of the 13 matrix container templates (128 overloads, 36 kernel call sites, 9 kernels): each overload type-checks; every kernel slot receives the like-named accessor of the right operand with the (a,b,y) convention and transposed flag of its method; dimension guards state the same role assignment; every normal exit defines r (early-outs format resp. copy y); b/a kernels unreachable for |alpha|<eps; inputs are never written (const, casts, range views); meta matrices apply each block exactly once to the matching sub-vectors with method parity, define-then-accumulate and consistent range offsets; kernels index r by row kind and x by column kind and initialise r over the right extent. These hold for all sizes, patterns and scalars because they are properties of the code shape; numerical equality with the dense product is not decided.",
+    note="Trusted: clang front end, featx facts, the role/accessor tables in checks/c01.py (filled from the callee parameter names and accessor names of the repository). Not decided: rounding, sign/constant-factor errors inside a kernel that keep index kinds, banded offset arithmetic, MKL/CUDA back ends, template arguments outside the driver set (tu/c01_apply.cpp).",
+    design="§4 C01, §10"),
+ "C06": dict(
+    technique="symbolic store/event summaries of filter kernels and filter methods extracted from the clang facts (guarded stores, truth tables over guard atoms), role tables by callee parameter names, sympy identities for the slip projection",
+    text="Decides, for all vector sizes, index sets, values and block sizes: filter kernels write only constrained positions/rows of the same matrix (footprint) and cover them; rhs/sol reach value-imposing and def/cor zero-imposing kernels exactly once on every path with something to filter, with the filter's own sparse vector in the right slots; stores do not read what they write (idempotence by form); the slip kernels are proved (sympy, block sizes 2 and 3) to remove the normal component, to be idempotent and to change v only along n; unit filter_mat leaves exactly the identity row; mean filters use dual/primal vectors on the documented sides with factor c - D/volume; every composition (chain, sequence, tuple, power, global) applies the same method to every component on the matching sub-vector exactly once in order.",
+    note="Trusted: clang front end, featx facts, the symbolic executor in checks/c06.py. Assumed: index sets without duplicates; <prim,dual> == _volume where the volume is a constructor argument. Not decided: rounding of the mean filter, rows without stored diagonal, filter assembly (which entries are constrained), CUDA/MKL kernels.",
+    design="§4 C06"),
  "C14": dict(
     technique="static constant propagation over the clang AST of the cubature drivers/factories + exact algebraic identities on the extracted tables",
     text="Every rule name x point count the cubature factories can create is enumerated completely; its weight/point table is extracted from the source by constant folding (no FEAT3 code is run) and checked for completeness, weight sum, exactness on all monomials up to the nominal degree, product structure, refine:* degree preservation, auto-degree mapping and refusal of out-of-range/unknown names. The property is a statement about constants in the source, so this is a complete decision for the enumerated rules.",
